@@ -32,23 +32,24 @@ def verify(sid, checks, tier, seeds):
     meta_path = os.path.join(d, "meta.json")
     meta = json.load(open(meta_path)) if os.path.exists(meta_path) else {}
     checks = checks or meta.get("checks_expected") or [meta.get("property")]
-    wt = tempfile.mkdtemp(prefix="corsim-seeded-")
-    os.rmdir(wt)
+    base = tempfile.mkdtemp(prefix="corsim-seeded-")
+    wt = os.path.join(base, "wt-" + str(meta.get("property", sid.split("-")[0])))  # demos may assert on this name
     res = {"verified_at_repo_commit": sh(["git", "-C", "/repo", "rev-parse", "--short", "HEAD"])[1].strip()}
     try:
         rc, out = sh(["git", "-C", "/repo", "worktree", "add", "--detach", wt, "HEAD"])
         if rc:
             raise RuntimeError(out)
         env = dict(os.environ, PYTHONPATH=wt, PYTHONDONTWRITEBYTECODE="1")
-        shutil.copy(os.path.join(d, "demo.py"), os.path.join(wt, "seeded_demo.py"))
-        rc0, out0 = sh([PY, "seeded_demo.py"], cwd=wt, env=env, timeout=900)
+        os.makedirs(os.path.join(wt, "SEEDED", "m"))
+        shutil.copy(os.path.join(d, "demo.py"), os.path.join(wt, "SEEDED", "m", "demo.py"))
+        rc0, out0 = sh([PY, "SEEDED/m/demo.py"], cwd=wt, env=env, timeout=900)
         res["demo_without_patch"] = "passes" if rc0 == 0 else f"FAILS rc={rc0}: {out0[-300:]}"
         rc, out = sh(["git", "apply", os.path.join(d, "patch.diff")], cwd=wt)
         if rc:
             raise RuntimeError("patch does not apply: " + out)
         rct, outt = sh([PY, "-m", "pytest", "-q", "-p", "no:cacheprovider", "--timeout=900"], cwd=wt, env=env)
         res["test_suite_with_patch"] = outt.strip().split("\n")[-1]
-        rc1, out1 = sh([PY, "seeded_demo.py"], cwd=wt, env=env, timeout=900)
+        rc1, out1 = sh([PY, "SEEDED/m/demo.py"], cwd=wt, env=env, timeout=900)
         res["demo_with_patch"] = "fails" if rc1 != 0 else "PASSES (demo does not detect the change)"
         caught = {}
         for pid in checks:
@@ -66,7 +67,7 @@ def verify(sid, checks, tier, seeds):
         res["missed_by"] = sorted(p for p, rs in caught.items() if not any(r["exit"] == 1 for r in rs))
     finally:
         sh(["git", "-C", "/repo", "worktree", "remove", "--force", wt])
-        shutil.rmtree(wt, ignore_errors=True)
+        shutil.rmtree(base, ignore_errors=True)
         sh(["git", "-C", "/repo", "worktree", "prune"])
     meta.setdefault("what_i_ran", {}).update(res)
     json.dump(meta, open(meta_path, "w"), indent=1, sort_keys=True)
